@@ -158,11 +158,13 @@ def eol(db, ctx):
     ctx.floor(2)
 
 
-def _accessor_seq(f, recv_name):
-    """ordered morpheme accessor calls"""
+def _accessor_seq(f, recv_name=None):
+    """ordered accessor calls on the function's Morpheme parameter (by type, whatever it is called)"""
     out = []
+    from ..db import is_local
+    m_lid = next((p_.get("lid") for p_ in (f.info.get("params") or []) if isinstance(p_, dict) and "Morpheme<" in (p_.get("ty") or "")), None)
     for c, _ in walk(f.hir):
-        if c.get("k") == "MethodCall" and local_name(c["recv"]) == recv_name and (callee(c) or "").startswith("sudachi::analysis::morpheme::Morpheme"):
+        if c.get("k") == "MethodCall" and is_local(c["recv"], m_lid) and (callee(c) or "").startswith("sudachi::analysis::morpheme::Morpheme"):
             out.append(c["method"])
     return out
 
@@ -208,7 +210,8 @@ def columns(db, ctx):
                                               "EOS line after the loop: %s / %s" % (ok, eos_after), fn=s)
     w = ww[0]
     from ..loops import iterations, chain as lchain, body_parents
-    from ..inline import nf
+    from ..inline import nf as _nf_raw, pcanon
+    nf = lambda e: pcanon(w, _nf_raw(e), "writer", "morphemes")            # parameters by position
     from ..flow import holds_at
     from ..guards import holds as _holds
     its = list(iterations(w.hir))
